@@ -40,6 +40,30 @@ def capacity_case(rng):
     return ops
 
 
+def cached_header_case(rng):
+    """calls that fail deep inside an operation on a handle that keeps a parsed header (after Resize, or OpenDataset
+    in a later session): an oversized value fails inside the compact->dense transition / the dense insert"""
+    ops = [{"op": "mkds", "path": "/keep", "dtype": "int32", "dims": [4], "chunk": [2], "maxdims": [16]},
+           {"op": "write", "path": "/keep", "val": "01000000020000000300000004000000"}]
+    n0 = rng.choice([1, 3, 6, 7, 9, 12])
+    for i in range(n0):
+        kk, v = histgen.rand_attr_value(rng)
+        ops.append({"op": "setattr", "path": "/keep", "name": hx("a%d" % i), "kind": kk, "val": v.hex()})
+    if rng.random() < 0.5:
+        ops.append({"op": "resize", "path": "/keep", "dims": [rng.choice([4, 6, 9])]})
+    else:
+        ops += [{"op": "close"}, {"op": "dump"}, {"op": "reopen"}]
+    for _ in range(rng.choice([1, 2, 3])):
+        huge = rng.choice([600, 2500, 70000, 100000])   # 20 KB fits the heap block; 560/800 KB exceed the maximum object size
+        ops.append({"op": "setattr", "path": "/keep", "name": hx(rng.choice(["a0", "huge", "a%d" % (n0 - 1)])), "kind": "[]f64",
+                    "val": (bytes(range(8)) * huge).hex()})
+        kk, v = histgen.rand_attr_value(rng)
+        ops.append({"op": "setattr", "path": "/keep", "name": hx("after%d" % rng.randint(0, 2)), "kind": kk, "val": v.hex()})
+        if rng.random() < 0.3:
+            ops.append({"op": "delattr", "path": "/keep", "name": hx("a%d" % rng.randint(0, n0))})
+    return ops
+
+
 def invalid_args_case(rng):
     ops = [{"op": "mkds", "path": "/keep", "dtype": "int32", "dims": [2]}, {"op": "write", "path": "/keep", "val": "0100000002000000"}]
     bad = [
@@ -73,6 +97,7 @@ def cases_for(rng, tier):
     for _ in range(n):
         cases.append({"sb": rng.choice([0, 2, 3]), "ops": capacity_case(rng)})
         cases.append({"sb": rng.choice([0, 2, 3]), "ops": invalid_args_case(rng)})
+        cases.append({"sb": rng.choice([0, 2, 3]), "ops": cached_header_case(rng)})
         cases.append({"sb": rng.choice([0, 2, 3]), "ops": histgen.gen_mixed(rng, nops=rng.choice([20, 50]), fail_rate=0.4, sessions=rng.choice([1, 1, 2]))})
     return cases
 
